@@ -101,6 +101,9 @@ pub fn c08_configs(thorough: bool) -> Vec<EpCfg> {
                 c.alph.peer_sub = true;
                 c.alph.send_fail = true;
                 c.alph.defer_pubrel = true;
+                // erase_stored_publish() as the application's message-expiry hook: releases a stored PUBLISH,
+                // must not touch an exchange that is past PUBREC
+                c.alph.erase = true;
                 if ver == Ver::V5 {
                     // refusal reasons: too large, Receive Maximum exceeded, alias out of range
                     c.alph.als = vec![Al::No, Al::Reg(3), Al::Use(1)];
@@ -358,7 +361,7 @@ pub fn c13_configs(thorough: bool) -> Vec<EpCfg> {
             let mut c = EpCfg::new(&cfg_name("c13", role, Some(Ver::V5), &format!("receive own-tam={tam}")), role, Some(Ver::V5));
             c.auto_pub = true;
             c.window = 1;
-            c.alph = Alph { peer_pub_q: vec![0, 1], peer_ids: vec![1], topics: 2, als: vec![Al::No], peer_als: vec![Al::No, Al::Reg(1), Al::Reg(2), Al::Reg(3), Al::Use(1), Al::Use(2), Al::Use(3)], spontaneous_close: true, ..Alph::default() };
+            c.alph = Alph { peer_pub_q: vec![0, 1, 2], peer_dup: true, peer_acks: vec![AckKind::Pubrel], peer_ack_ids: vec![1], peer_ids: vec![1], topics: 2, als: vec![Al::No], peer_als: vec![Al::No, Al::Reg(1), Al::Reg(2), Al::Reg(3), Al::Use(1), Al::Use(2), Al::Use(3)], spontaneous_close: true, ..Alph::default() };
             let t = if tam == 0 { None } else { Some(tam) };
             c.connects = vec![ConnProf { tam: t, ..ConnProf::basic(true) }, ConnProf { tam: t, ..ConnProf::basic(false) }];
             c.connacks = vec![AckProf { tam: t, ..AckProf::basic(false) }, AckProf { tam: t, ..AckProf::basic(true) }];
@@ -452,7 +455,10 @@ pub fn c14_configs(thorough: bool) -> Vec<EpCfg> {
             // the own limit is announced in CONNECT (client) / CONNACK (server)
             if role == RoleK::Client {
                 c.connects = vec![ConnProf { mps: Some(own), ..ConnProf::basic(true) }];
-                c.connacks = vec![AckProf::basic(false)];
+                // the CONNACK itself may exceed the limit the client announced (a v5 CONNACK without padding
+                // has 5 bytes; the padded one 5 + 7 + 4)
+                c.connacks = vec![AckProf::basic(false), AckProf { pad: Some(4), ..AckProf::basic(false) }];
+                c.alph.peer_auth = true;
             } else {
                 c.connects = vec![ConnProf::basic(true)];
                 c.connacks = vec![AckProf { mps: Some(own), ..AckProf::basic(false) }];
@@ -531,6 +537,8 @@ pub fn c15_configs(thorough: bool) -> Vec<EpCfg> {
                         spontaneous_close: true,
                         pub_any_status: true,
                         set_interval: vec![None, Some(0), Some(3)],
+                        // the response timeout may be changed (also switched off) while a PINGRESP is awaited
+                        set_pingresp_to: if to == 0 { vec![] } else { vec![0, to] },
                         ..Alph::default()
                     };
                     // second connection with a *different* keep alive; Server Keep Alive absent / 0 / 2
